@@ -100,6 +100,24 @@ def concrete_model(cse, e):
     return {n: float(out.data[i, 0]) for i, n in enumerate(names)}
 
 
+def concrete_alias(cse, e1, e2):
+    from formak import python
+    from formak.reference_models import strapdown_imu as sm
+
+    with quiet():
+        cal = {s: float(e1[s.name]) for s in sm.calibration}
+        pm = python.compile(sm.symbolic_model, cal, config=python.Config(common_subexpression_elimination=cse))
+        outs = []
+        for e in (e1, e2):
+            st = pm.State(**{s.name: float(e[s.name]) for s in sm.state})
+            ct = pm.Control(**{s.name: float(e[s.name]) for s in sm.control})
+            outs.append(pm.model(float(e["dt"]), st, ct))
+        keep_now = outs[0].data.reshape(-1).copy()
+    fresh = concrete_model(cse, e1)
+    names = sorted(s.name for s in sm.state)
+    return {n: (float(keep_now[i]), fresh[n]) for i, n in enumerate(names) if not approx_equal(float(keep_now[i]), fresh[n])}
+
+
 def seeded_env(rng):
     e = {n: rng.randint(-16, 16) / 8.0 for n in all_names()}
     e["oriw"] = 1.0
@@ -165,14 +183,32 @@ def task(mode, cse, names, tier, seed):
                 pm = python.compile(sm.symbolic_model, cal, config=python.Config(common_subexpression_elimination=cse))
                 st = pm.State(**{s.name: SymReal(env[s.name]) for s in sm.state})
                 ct = pm.Control(**{s.name: SymReal(env[s.name]) for s in sm.control})
-                return pm.model(SymReal(env["dt"]), st, ct)
+                first = pm.model(SymReal(env["dt"]), st, ct)
+                snap = first.data.copy()
+                # history dimension: the compiled model is used again; what it returned before must not change
+                st2 = pm.State(**{s.name: SymReal(z3.Real(zname(s.name) + "__2")) for s in sm.state})
+                ct2 = pm.Control(**{s.name: SymReal(z3.Real(zname(s.name) + "__2")) for s in sm.control})
+                pm.model(SymReal(z3.Real("v_dt__2")), st2, ct2)
+                stable = all(lift(a).eq(lift(b)) for a, b in zip(snap.reshape(-1), first.data.reshape(-1)))
+                return pm.State.from_data(snap), stable
 
         ls = explore(harness, assumes=assumes)
         part.leaves(ls)
         if len(ls) != 1 or ls[0].status != "ok":
             part.harness_error(f"compiled strapdown model: {ls}")
             return part.d
-        out = ls[0].value
+        out, stable = ls[0].value
+        from .common import Q as _Q
+
+        part.record(_Q("unsat" if stable else "sat", None, 0.0, ""), f"compiled/cse={int(cse)}: the state returned by an earlier call is unchanged by a later call")
+        if not stable:
+            e1, e2 = seeded_env(random.Random(seed + 1)), seeded_env(random.Random(seed + 2))
+            bad = concrete_alias(cse, e1, e2)
+            if bad:
+                path = write_replay(PID, {"key": f"compiled/cse={int(cse)}/aliasing", "info": {"mode": "aliasing", "cse": cse}, "inputs": {"first": e1, "second": e2}, "changed": bad})
+                part.violation(f"compiled/cse={int(cse)}/aliasing", f"the state returned by the compiled strapdown model changed after a later call: {list(bad)[:3]}", path)
+            else:
+                part.harness_error("compiled strapdown: symbolic aliasing not reproduced concretely")
         impl = {n: lift(out.data[state_names.index(n), 0]) for n in state_names}
         for pt, zpt in zip(pts, zpts):
             try:
@@ -267,6 +303,11 @@ def replay(path):
         r = json.load(f)
     info = r["info"]
     e = r["inputs"]
+    if info.get("mode") == "aliasing":
+        bad = concrete_alias(info["cse"], e["first"], e["second"])
+        print(bad)
+        print("REPRODUCED" if bad else "not reproduced")
+        return 1 if bad else 0
     e2 = {nm: e.get(zname(nm), e.get(nm, 0.5)) for nm in all_names()}
     ref = reference()
     try:
